@@ -105,7 +105,7 @@ def build(repo):
             new_closed(self.functions_call_tree@, old(functions_actually_in_use)@, final(functions_actually_in_use)@), //@ C12:closure
             new_reachable(self.functions_call_tree@, old(functions_actually_in_use)@, final(functions_actually_in_use)@, f@), //@ C12:sound
 """, expect_sig="fn function_is_actually_in_use( &self, f: &str, functions_actually_in_use: &mut HashSet<String>, )")
-    f.at_block_start(r"fn function_is_actually_in_use", """
+    f.body_start("""
         broadcast use vstd::std_specs::hash::group_hash_axioms;
         let ghost t = self.functions_call_tree@;
         let ghost s0 = functions_actually_in_use@;
@@ -174,7 +174,7 @@ def build(repo):
             forall|n: Seq<char>| inset(final(self).functions_actually_in_use@, n) <==> in_use_spec(old(self).functions_call_tree@, old(self).compiler_state.functions@, n), //@ C12:exact
 """, expect_sig="fn compute_functions_actually_in_use(&mut self) -> Result<(), Error>")
     c.sub(r"for i in &self\.compiler_state\.functions \{", "for i in it: self.compiler_state.functions.iter() {", "R12 (`for x in &map` is `for x in map.iter()`: std IntoIterator for &HashMap)", expect=1)
-    c.at_block_start(r"fn compute_functions_actually_in_use", """
+    c.body_start("""
         broadcast use vstd::std_specs::hash::group_hash_axioms;
         let ghost t = self.functions_call_tree@;
         let ghost funcs = self.compiler_state.functions@;
